@@ -89,15 +89,45 @@ func propStream(c harness.Case) harness.Result {
 		return res
 	}
 	res.Err = first(tree.CheckC01(in, blocks, false))
+	if res.Err != nil {
+		return res
+	}
+	// The blocks stay what they are when the program goes on to parse
+	// something else: a second parser reads another document to its end, then
+	// the first document's blocks are examined again.
+	other := append(bytes.Repeat([]byte("> SECOND DOCUMENT\n\nsecond *paragraph*\n\n"), 1+len(in)/40), orig...)
+	q := cm.NewBlockParser(bytes.NewReader(other))
+	for {
+		if _, err := q.NextBlock(); err != nil {
+			break
+		}
+	}
+	if err := first(tree.CheckC01(in, blocks, false)); err != nil {
+		res.Err = fmt.Errorf("after another BlockParser has read a second document: %v", err)
+	}
 	return res
 }
 
+// withBlankPrefix puts one to four blank lines (spaces and tabs, ended by LF,
+// CR or CRLF in any mixture) in front of one document in five.
+func withBlankPrefix(t *rapid.T, in []byte) []byte {
+	if rapid.IntRange(0, 4).Draw(t, "prefix?") != 0 {
+		return in
+	}
+	var pre []byte
+	for n := rapid.IntRange(1, 4).Draw(t, "prefixlines"); n > 0; n-- {
+		pre = append(pre, []string{"", "", " ", "  ", "\t", "    "}[rapid.IntRange(0, 5).Draw(t, "prefixws")]...)
+		pre = append(pre, []string{"\n", "\r", "\r\n"}[rapid.IntRange(0, 2).Draw(t, "prefixeol")]...)
+	}
+	return append(pre, in...)
+}
+
 func genMemory(t *rapid.T) harness.Case {
-	return harness.Case{In: gen.Doc().Draw(t, "in")}
+	return harness.Case{In: withBlankPrefix(t, gen.Doc().Draw(t, "in"))}
 }
 
 func genStream(t *rapid.T) harness.Case {
-	c := harness.Case{In: gen.Doc().Draw(t, "in")}
+	c := harness.Case{In: withBlankPrefix(t, gen.Doc().Draw(t, "in"))}
 	c.SetL("sched", gen.Schedule(t, c.In))
 	if rapid.Bool().Draw(t, "eofdata") {
 		c.SetI("eofdata", 1)
